@@ -236,14 +236,13 @@ func (h *History) Observe(rec *sim.ScanRecord) *ScanCtx {
 		}
 		g.Locked = st.Lock.Armed
 
-		g.Plan = oracle.Decide(oracle.Input{View: g.View, NowNanos: g.Now, Locked: g.Locked, CachedCPU: st.CachedCPU, CachedMem: st.CachedMem})
-		h.derive(g, rec)
-
-		// the controller remembers the size of the first listed node of the group, in this lifetime,
-		// once the scan got as far as listing nodes without error
+		// the controller remembers the size of the first listed node of the group, in this lifetime, as soon
+		// as it has listed the nodes (that is: before it decides)
 		if g.Reached && listedNodes(g.Events) && len(g.View.Nodes) > 0 {
 			st.CachedCPU, st.CachedMem = oracle.NodeAlloc(g.View.Nodes[0])
 		}
+		g.Plan = oracle.Decide(oracle.Input{View: g.View, NowNanos: g.Now, Locked: g.Locked, CachedCPU: st.CachedCPU, CachedMem: st.CachedMem})
+		h.derive(g, rec)
 		// arm the lock model when the cloud accepted an increase
 		if g.IncreaseAccepted {
 			st.Lock = LockModel{Armed: true, At: g.IncreaseAt, Epoch: rec.Epoch}
@@ -329,10 +328,11 @@ func (h *History) derive(g *GroupCtx, rec *sim.ScanRecord) {
 		case sim.AwsSetDes:
 			g.SetDesired = append(g.SetDesired, e)
 			g.IncreaseTried = true
-			if e.OK() && g.Cache != nil && e.Desired > g.Cache.Desired {
+			if e.OK() {
+				// escalator resizes the cloud group only to scale up: an accepted call is an accepted scale-up
 				g.IncreaseAccepted = true
 				g.IncreaseAt = e.VTime
-				g.CloudIncrease = e.Desired - g.Cache.Desired
+				g.CloudIncrease = e.Desired - e.CloudDesired
 			}
 		case sim.AwsFleet:
 			g.Fleets = append(g.Fleets, e)
@@ -438,6 +438,24 @@ func bucket(d int64) string {
 	default:
 		return ">>"
 	}
+}
+
+// DesiredBefore is the group's real desired capacity when event e arrived, as far as this scan can know it:
+// the describe snapshot of the scan minus the terminations accepted earlier in the same segment.
+func (g *GroupCtx) DesiredBefore(e *sim.Event) int64 {
+	if g.Cache == nil {
+		return 0
+	}
+	d := g.Cache.Desired
+	for _, x := range g.Events {
+		if e != nil && x.Seq >= e.Seq {
+			break
+		}
+		if x.API == sim.AwsTermASG && x.Applied && x.Decrement != nil && *x.Decrement {
+			d--
+		}
+	}
+	return d
 }
 
 // Bound is min(max_nodes, cloud maximum) for the group in this scan.
